@@ -22,6 +22,7 @@ func register(id string, f func(p *Prog, r *Report)) { registry[id] = f }
 
 func init() {
 	register("C04", checkC04)
+	register("C05", checkC05)
 	register("C06", checkC06)
 	register("C07", checkC07)
 	register("C08", checkC08)
